@@ -192,7 +192,7 @@ EXTRA = {
  'C08': ' Also: the same object on both sides of every operator. Scalar letters 0, 1, 0.0, False, np.int64(0), np.float64(0). Operands whose value is special while the class is general (unit-norm plain quaternions / dual quaternions, identity poses, zero twist). Plain arrays whose values are group members. One-element arrays and lists.',
  'C09': ' Also: every other per-value method, property and conversion (refuse loudly or return M per-value results), unary minus, the same object on both sides, nearly equal elements under == / !=, elements of mixed kinds, and every accessor on objects with a history. Poses of mixed kinds x point. Column / row point forms, mixed-kind poses x point, M poses x n points of other length must raise. E5 shards: every ordered pair of the menu steps of mc/histmenu.py from a pristine process state (forked children), differential against the step run alone. Values held in integer arrays, all classes. Vector-s interpolation of quaternions 0.01 .. 0.1 rad apart against scalar calls at 1e-12; vectors of joint values against scalar calls; twist predicates strict. Several poses interpolated from an explicit start pose (more than half a turn apart).',
  'C11': ' Also: integer-dtype poses against their float copies. The shorter-arc request spelt as NumPy boolean and 1; start poses just short of a half turn. Vector s ascending / unsorted / descending, 2-D vector s with and without start. E5 shards: every ordered pair of the menu steps of mc/histmenu.py from a pristine process state (forked children), differential against the step run alone. Short moves far from the origin (1e6 + 5, 1e3 + 2e-3). Relative angles 0.03, 0.07, 0.085.',
- 'C12': ' Also: the identities on multi-valued operands (1xN, Nx1, NxN), UnitQuaternion receivers of exp/log, mixed-class dual quaternion products. Operands as single / half precision and integer arrays and lists of NumPy scalars; conjugate of unit dual quaternions. E5 shards: every ordered pair of the menu steps of mc/histmenu.py from a pristine process state (forked children), differential against the step run alone. All exponents -8..8; complete grid of unit quaternions with integer components 0..3 under +-4..6; UnitQuaternion sums across hemispheres. 8 x 8 matrix identity of dual quaternions with SymPy symbols in either part.',
+ 'C12': ' exp(log(q)) = q to 1e-6 relative to |q| for vector parts of norm 1e-9 .. 1e6 beside scalar parts of every order. Also: the identities on multi-valued operands (1xN, Nx1, NxN), UnitQuaternion receivers of exp/log, mixed-class dual quaternion products. Operands as single / half precision and integer arrays and lists of NumPy scalars; conjugate of unit dual quaternions. E5 shards: every ordered pair of the menu steps of mc/histmenu.py from a pristine process state (forked children), differential against the step run alone. All exponents -8..8; complete grid of unit quaternions with integer components 0..3 under +-4..6; UnitQuaternion sums across hemispheres. 8 x 8 matrix identity of dual quaternions with SymPy symbols in either part.',
  'C13': ' Also: container forms and the check option of the vector / vex helpers, multi-valued ad(), Ad / jacob / ad on objects with a history. The linear identities with fully and partly symbolic vectors. Exponential spellings incl. many-turn S.exp(theta); Ad(S*T). E5 shards: every ordered pair of the menu steps of mc/histmenu.py from a pristine process state (forked children), differential against the step run alone. unitvec / unitvec_norm / isunitvec / iszerovec over magnitudes 1e-12 .. 1e6. Class-level vee of conjugated se(3) matrices. Twists whose 6-vector has Euclidean norm 1; near-prismatic twists.',
  'C14': ' Also: whole-matrix noise (bottom row included), the N x 4 and check=False forms of the normalising constructor, container forms of angdiff. Values as single / half precision and integer arrays; clockwise planar twists. Clockwise unit twists about -e3. E5 shards: every ordered pair of the menu steps of mc/histmenu.py from a pristine process state (forked children), differential against the step run alone. unit() on UnitQuaternion objects built with norm=False. N x 4 tables mixing unit and non-unit rows. Unit twist = twist / magnitude at the scale of the result.',
  'C15': ' Also: the unit of every angle accessor on multi-valued objects; Python int / NumPy integer / single-precision scalar angles. Positional unit arguments, multi twist x theta of other length must raise, two-argument trexp / trexp2 forms; defaults when omitted are reported as notes only. E5 shards: every ordered pair of the menu steps of mc/histmenu.py from a pristine process state (forked children), differential against the step run alone. Container forms at every accepted length; the scalar values implementations shortcut (s = 0 / 1, exponent 0 / +-1, angle 0). Both vector arguments of the wrong length with the right total. Units of one-value-per-twist theta vectors on multi-valued twists.',
